@@ -584,15 +584,19 @@ class Exec:
                 parts.append(v.value)
             elif isinstance(v, ast.FormattedValue):
                 x = self.eval(v.value, pc, env)
-                if is_sym(x):
+                if isinstance(x, TemplateStr):
+                    parts.append(x)
+                elif is_sym(x):
                     if isinstance(x, z3.SeqRef):
                         parts.append(x)
                     else:
-                        raise Unsupported("f-string over symbolic non-string")
+                        parts.append(TemplateStr.hole(x))  # a symbolic number rendered into text (e.g. a query string)
                 else:
                     parts.append(format(x, "") if v.format_spec is None else str(x))
         if all(isinstance(p, str) for p in parts):
             return "".join(parts)
+        if any(isinstance(p, TemplateStr) for p in parts):
+            return TemplateStr.join(parts)
         return z3.Concat(*[to_z3(p) for p in parts])
 
     def ex_UnaryOp(self, n, pc, env):
@@ -892,6 +896,11 @@ class Exec:
     def ex_Lambda(self, n, pc, env):
         return Closure(n, env)
 
+    def ex_NamedExpr(self, n, pc, env):
+        v = self.eval(n.value, pc, env)
+        env[n.target.id] = v  # binds in the enclosing scope (in place: the dict is this scope's environment)
+        return v
+
     def _comp(self, n, pc, env, make):
         if len(n.generators) != 1:
             raise Unsupported("nested comprehension")
@@ -1090,6 +1099,42 @@ class _Fork(Exception):
 
 
 # ---------------------------------------------------------------------------------------------- misc value kinds
+
+
+class TemplateStr:
+    """Text with numbered holes standing for symbolic numbers: f"(ts >= {start}) and ..." ."""
+
+    _n = 0
+
+    def __init__(self, text: str, holes: Dict[str, Any]):
+        self.text, self.holes = text, dict(holes)
+
+    @classmethod
+    def hole(cls, value):
+        cls._n += 1
+        k = f"__hole_{cls._n}__"
+        return cls(k, {k: value})
+
+    @classmethod
+    def join(cls, parts):
+        text, holes = "", {}
+        for p in parts:
+            if isinstance(p, TemplateStr):
+                text += p.text
+                holes.update(p.holes)
+            elif isinstance(p, str):
+                text += p
+            else:
+                raise Unsupported("template string mixed with a symbolic string")
+        return cls(text, holes)
+
+    def __deepcopy__(self, memo):
+        return self
+
+    def hv_binop(self, ex, op, other, reflected, pc):
+        if isinstance(op, ast.Add) and isinstance(other, (str, TemplateStr)):
+            return TemplateStr.join([other, self] if reflected else [self, other])
+        raise Unsupported("operation on a template string")
 
 
 class Guarded:
